@@ -570,14 +570,17 @@ func doneTest(c *an.Ctx, s *sched, rule string) {
 	}
 	op := loop.RangeOperand()
 	okRange := false
-	for _, r := range an.ResolveAll(op) {
-		if call, ok := r.(*ssa.Call); ok {
-			if cc, ok := an.IsCallTo(call, fnGraphNodes); ok {
-				for _, p := range d.Params {
-					if an.SameValue(cc.Args[0], p) {
-						okRange = true
-					}
+	if graphs, ok := allNodesOf(c.P, op, 2); ok {
+		okRange = true
+		for _, g := range graphs {
+			isParam := false
+			for _, prm := range d.Params {
+				if an.SameValue(g, prm) {
+					isParam = true
 				}
+			}
+			if !isParam {
+				okRange = false
 			}
 		}
 	}
